@@ -1,4 +1,4 @@
-import Hifi.Lemmas.Efmt
+import Hifi.Lemmas.EfmtBack
 /-
   C13 (format part)  Parsers are total: `Format::from_str`, `Format::parse`,
   `Epoch::from_str_with_format`, `Epoch::from_format_str`.
@@ -95,6 +95,102 @@ theorem repaired_panics_are_errors :
     formatParse O0 (fmtOf "%Y-%j") (Cal.strCodes "9999999-038") = .err ∧
     formatParse O0 (fmtOf "%Y-%m-%d %H:%M:%S.%f %Y-%m-%d %H:%M:%S.%f %Y-%m")
       (Cal.strCodes "2015-02-07 11:22:33.000000001 2015-02-07 11:22:33.000000001 2015-02x") ≠ .panic := by
+  decide +kernel
+
+/-! ### accept / reject through `Format::parse`: universal over the numeric class of formats
+
+  The driver's verdict (`Drive/Efmt.lean`, `parseOp`: "an error whenever the fields READ from the text must be
+  rejected") is proved here for the formats of `numClass` — the seven numeric tokens `%Y %m %d %H %M %S %f` in
+  ANY order, all present, repetitions allowed, at most 16 items, every item but the last followed by one or two
+  non-numeric ASCII separators — and EVERY text that is well formed for such a format: four digits for `%Y`, two for
+  `%m %d %H %M %S`, nine for `%f`, with ANY values (month 00..99, …), valid or not.  Not covered by a theorem
+  (correspondence + spec verdict only): name tokens, `%j`, `%T`, `%z`, fields of other widths, junk. -/
+
+/-- the text of the field values in the layout of `f` (the formatter's own rendering of each field, `C19`) -/
+def printed (f : Format) (y mo d h mi s ns : Int) : List Nat :=
+  concatItems (numText ⟨y, mo, d, h, mi, s, ns⟩) f.items
+
+example : printed (fmtOf "%d/%m/%Y %H:%M:%S.%f") 2015 13 7 11 22 33 5 = Cal.strCodes "07/13/2015 11:22:33.000000005" := by
+  decide +kernel
+
+/-- **`Format::parse` of printed fields is `Epoch::maybe_from_gregorian` of the fields** (UTC, no offset), for every
+    format of the class and every printable field tuple except hour 24 — error for error, value for value, and
+    never a panic.  What `maybe_from_gregorian` accepts, rejects and returns is C08's subject. -/
+theorem format_parse_is_from_gregorian (O : Oracles) (f : Format) (hc : numClass f = true) (y mo d h mi s ns : Int)
+    (hy : 0 ≤ y ∧ y ≤ 9999) (hmo : 0 ≤ mo ∧ mo < 100) (hd : 0 ≤ d ∧ d < 100) (hh : 0 ≤ h ∧ h < 100)
+    (hmi : 0 ≤ mi ∧ mi < 100) (hs : 0 ≤ s ∧ s < 100) (hns : 0 ≤ ns ∧ ns < 1000000000) (h24 : h ≠ 24) :
+    formatParse O f (printed f y mo d h mi s ns) =
+      match Cal.maybeFromGregorian y mo d h mi s ns TS.UTC with
+      | .ok dur => .ok ⟨dur, TS.UTC⟩
+      | .err => .err
+      | .panic => .panic := by
+  obtain ⟨hne, h16, h7, hgood, hfull⟩ := numClass_hyps f hc
+  exact parse_num7_is_from_gregorian O f ⟨y, mo, d, h, mi, s, ns⟩ (by unfold Flds.Printable; simp only; omega)
+    hne h16 h7 hgood hfull h24
+
+/-- **Rejection** — PARTIAL (outside D10: 30/31 February of a leap year, which `is_gregorian_valid` lets through;
+    counterexample below).  Well-formed text whose fields the specification calendar rejects — month 00 or 13+,
+    day 00 or beyond the month, hour 25+, minute 60+, second 61+, second 60 where no leap second is — or whose hour
+    is 24 is an ERROR, never another date. -/
+theorem format_parse_rejects_out_of_range_partial (O : Oracles) (f : Format) (hc : numClass f = true)
+    (y mo d h mi s ns : Int)
+    (hy : 0 ≤ y ∧ y ≤ 9999) (hmo : 0 ≤ mo ∧ mo < 100) (hd : 0 ≤ d ∧ d < 100) (hh : 0 ≤ h ∧ h < 100)
+    (hmi : 0 ≤ mi ∧ mi < 100) (hs : 0 ≤ s ∧ s < 100) (hns : 0 ≤ ns ∧ ns < 1000000000)
+    (hrej : Spec.mustReject Spec.iersLeapDates ⟨y, mo, d⟩ h mi s ns = true ∨ h = 24)
+    (hD10 : Cal.d10class y mo d = false) :
+    formatParse O f (printed f y mo d h mi s ns) = .err := by
+  by_cases h24 : h = 24
+  · obtain ⟨hne, h16, h7, hgood, hfull⟩ := numClass_hyps f hc
+    exact parse_num7_hour24 O f ⟨y, mo, d, h, mi, s, ns⟩ (by unfold Flds.Printable; simp only; omega)
+      hne h16 h7 hgood hfull h24
+  · have hr : Spec.mustReject Spec.iersLeapDates ⟨y, mo, d⟩ h mi s ns = true := by
+      rcases hrej with h | h
+      · exact h
+      · exact absurd h h24
+    rw [format_parse_is_from_gregorian O f hc y mo d h mi s ns hy hmo hd hh hmi hs hns h24,
+      Cal.maybeFromGregorian_eq y mo d h mi s ns TS.UTC (by omega),
+      Cal.validCore_rejects y mo d h mi s ns hmo.1 hd.1 hh.1 hmi.1 hs.1 hns.1 hD10 hr]
+    rfl
+
+/-- **Acceptance**: well-formed text whose fields the specification requires to be accepted (valid date, hour < 24,
+    minute < 60, second < 60 or a leap second of the IERS table) parses to exactly the specified instant: UTC, the
+    day number of the date times 86 400 s plus the time of day (a leap second counted once), from 1900-01-01. -/
+theorem format_parse_accepts (O : Oracles) (f : Format) (hc : numClass f = true) (y mo d h mi s ns : Int)
+    (hy : 0 ≤ y ∧ y ≤ 9999)
+    (hacc : Spec.mustAccept Spec.iersLeapDates ⟨y, mo, d⟩ h mi s ns = true) :
+    ∃ e, formatParse O f (printed f y mo d h mi s ns) = .ok e ∧ e.ts = TS.UTC ∧ e.dur.Canon ∧
+      e.dur.val = Spec.dayNumber ⟨y, mo, d⟩ * 86400000000000 + h * 3600000000000 + mi * 60000000000 + s * 1000000000 + ns
+        - (if s = 60 then 1000000000 else 0) - Spec.refOffsetNs TS.UTC.name := by
+  have hacc' := hacc
+  unfold Spec.mustAccept at hacc'
+  simp only [Bool.and_eq_true, Bool.or_eq_true, decide_eq_true_eq] at hacc'
+  obtain ⟨⟨hval, hh, hh24, hmi, hmi60, hns, hns9⟩, hsec⟩ := hacc'
+  have hv := (Cal.validDate_iff _).mp hval
+  simp only at hv
+  have hml := Cal.monthLen_cases y mo
+  have hs : 0 ≤ s ∧ s ≤ 60 := by rcases hsec with h | h <;> omega
+  have hD10 : Cal.d10class y mo d = false := by
+    unfold Cal.d10class
+    rw [Cal.isLeapYear_eq]
+    cases hl : Spec.isLeap y <;> simp
+    intro h2
+    rw [hl] at hml
+    simp at hml
+    omega
+  have hvc := ((Cal.validCore_spec y mo d h mi s ns (by omega) (by omega) hh hmi hs.1 hns hD10 (by omega) (by omega)).1).mpr hacc
+  obtain ⟨e, he, hcan, hvalue⟩ := Cal.maybeFromGregorian_val y mo d h mi s ns TS.UTC (by omega) (by omega) (by omega)
+    hh hmi hs.1 hns hvc
+  refine ⟨⟨e, TS.UTC⟩, ?_, rfl, hcan, hvalue⟩
+  rw [format_parse_is_from_gregorian O f hc y mo d h mi s ns hy (by omega) (by omega) (by omega) (by omega) (by omega)
+    (by omega) (by omega), he]
+
+/-- the D10 hypothesis cannot be dropped: "2024-02-30 …" must be rejected, and `Format::parse` returns 1 March -/
+theorem format_parse_d10_counterexample :
+    numClass (fmtOf "%Y-%m-%d %H:%M:%S.%f") = true ∧
+    Spec.mustReject Spec.iersLeapDates ⟨2024, 2, 30⟩ 0 0 0 0 = true ∧ Cal.d10class 2024 2 30 = true ∧
+    formatParse O0 (fmtOf "%Y-%m-%d %H:%M:%S.%f") (printed (fmtOf "%Y-%m-%d %H:%M:%S.%f") 2024 2 30 0 0 0 0) ≠ .err ∧
+    formatParse O0 (fmtOf "%Y-%m-%d %H:%M:%S.%f") (printed (fmtOf "%Y-%m-%d %H:%M:%S.%f") 2024 2 30 0 0 0 0) =
+      formatParse O0 (fmtOf "%Y-%m-%d %H:%M:%S.%f") (Cal.strCodes "2024-03-01 00:00:00.000000000") := by
   decide +kernel
 
 end Hifi.C13Format
